@@ -80,6 +80,9 @@ type Facts struct {
 	AwaitLoops  [][3]string         `json:"awaitLoops"`
 	CoCmds      [][3]string         `json:"coroutineCmds"`
 	TaskGuards  [][3]string         `json:"taskGuards"`
+	TickCalls   []string            `json:"tickCalls"`
+	TickConds   []string            `json:"tickConds"`
+	QueueShapes [][4]string         `json:"queueShapes"`
 	Defaults    map[string]string   `json:"defaults"`
 }
 
@@ -330,6 +333,62 @@ func main() {
 		}
 	}
 
+	// 5d. the kernel's Tick: the calls it makes, in source order, and the conditions it branches on — Model/System.lean
+	// (`Sys.tick`: deliver completions, gate the background coroutines, rotate on refusal, admit requests, run, flush) is
+	// written against exactly this sequence
+	if f := parse(filepath.Join(repo, "internal/kernel/system/system.go")); f != nil {
+		if fd := funcDecl(f, "System", "Tick"); fd != nil && fd.Body != nil {
+			ast.Inspect(fd.Body, func(n ast.Node) bool {
+				switch x := n.(type) {
+				case *ast.CallExpr:
+					facts.TickCalls = append(facts.TickCalls, src(x.Fun))
+				case *ast.IfStmt:
+					facts.TickConds = append(facts.TickConds, src(x.Cond))
+				}
+				return true
+			})
+		} else {
+			tie("system.go: func (s *System) Tick not found")
+		}
+	}
+
+	// 5e. the queues between clients, kernel and subsystems: per function, the calls it makes and the conditions it branches on
+	for _, spec := range [][3]string{
+		{"internal/api/api.go", "api", "EnqueueSQE"}, {"internal/api/api.go", "api", "DequeueSQE"}, {"internal/api/api.go", "api", "EnqueueCQE"},
+		{"internal/api/api.go", "api", "Shutdown"}, {"internal/api/api.go", "api", "Done"},
+		{"internal/kernel/system/system.go", "System", "Done"}, {"internal/kernel/system/system.go", "System", "Shutdown"},
+		{"internal/aio/aio.go", "aio", "EnqueueCQE"}, {"internal/aio/aio.go", "aio", "DequeueCQE"}, {"internal/aio/aio.go", "aio", "Dispatch"}, {"internal/aio/aio.go", "aio", "Flush"},
+	} {
+		f := parse(filepath.Join(repo, spec[0]))
+		if f == nil {
+			continue
+		}
+		fd := funcDecl(f, spec[1], spec[2])
+		if fd == nil || fd.Body == nil {
+			tie("%s: func (%s) %s not found", spec[0], spec[1], spec[2])
+			continue
+		}
+		calls, conds := []string{}, []string{}
+		ast.Inspect(fd.Body, func(n ast.Node) bool {
+			switch x := n.(type) {
+			case *ast.CallExpr:
+				if c := src(x.Fun); !strings.HasPrefix(c, "slog.") && !strings.Contains(c, "metrics") {
+					calls = append(calls, c)
+				}
+			case *ast.IfStmt:
+				conds = append(conds, src(x.Cond))
+			case *ast.CommClause:
+				if x.Comm == nil {
+					conds = append(conds, "select-default")
+				} else {
+					conds = append(conds, "select: "+src(x.Comm))
+				}
+			}
+			return true
+		})
+		facts.QueueShapes = append(facts.QueueShapes, [4]string{spec[0], spec[2], strings.Join(calls, " "), strings.Join(conds, " ;; ")})
+	}
+
 	// 6. struct-tag defaults
 	for _, spec := range [][3]string{
 		{"internal/app/subsystems/aio/store/sqlite/sqlite.go", "Config", "sqlite"},
@@ -458,6 +517,29 @@ func main() {
 			sep = ""
 		}
 		fmt.Fprintf(&ss, "  (%s, %s, %s)%s\n", q(a[0]), q(a[1]), q(a[2]), sep)
+	}
+	ss.WriteString("]\n\n/-- the calls `System.Tick` makes, in source order -/\ndef tickCalls : List String := [")
+	for i, a := range facts.TickCalls {
+		if i > 0 {
+			ss.WriteString(", ")
+		}
+		ss.WriteString(q(a))
+	}
+	ss.WriteString("]\n\n/-- the conditions `System.Tick` branches on, in source order -/\ndef tickConds : List String := [\n")
+	for i, a := range facts.TickConds {
+		sep := ","
+		if i == len(facts.TickConds)-1 {
+			sep = ""
+		}
+		fmt.Fprintf(&ss, "  %s%s\n", q(a), sep)
+	}
+	ss.WriteString("]\n\n/-- the queue functions between clients, kernel and subsystems: (file, function, calls, conditions) -/\ndef queueShapes : List (String × String × String × String) := [\n")
+	for i, a := range facts.QueueShapes {
+		sep := ","
+		if i == len(facts.QueueShapes)-1 {
+			sep = ""
+		}
+		fmt.Fprintf(&ss, "  (%s, %s, %s, %s)%s\n", q(a[0]), q(a[1]), q(a[2]), q(a[3]), sep)
 	}
 	ss.WriteString("]\n\nend Resonate.Gen\n")
 	os.WriteFile(filepath.Join(out, "Sites.lean"), []byte(ss.String()), 0o644)
